@@ -253,6 +253,62 @@ func init() {
 			}
 		}
 
+		// several tips with shared history: the walk of a later tip meets ancestors already streamed
+		{
+			rounds := 4
+			if c.Tier == "thorough" {
+				rounds = 20
+			}
+			for round := 0; round < rounds; round++ {
+				w, n := buildChain(c, 6+round%5, spice.Melange{Currency: 100})
+				info := map[string]interface{}{"section": "wedge", "op": "stream-several-tips", "round": round}
+				c.Mark(info)
+				snap := n.ab.VerifSnapshot()
+				sealer := w.NewWallet()
+				// side tips sealed by a wallet acting as a node, hanging off vertices that already have children
+				isLeaf := map[[32]byte]bool{}
+				for _, l := range snap.Leaves {
+					isLeaf[l] = true
+				}
+				var inner []accountant.Vertex
+				for _, v := range snap.Vertices {
+					if !isLeaf[v.Hash] {
+						inner = append(inner, v)
+					}
+				}
+				for k := 0; k < 2+round%2 && k+1 < len(inner); k++ {
+					a, b := inner[c.Rnd.Intn(len(inner))], inner[c.Rnd.Intn(len(inner))]
+					wt := a.Weight
+					if b.Weight > wt {
+						wt = b.Weight
+					}
+					t := w.NewTrx(w.wallets[1], w.wallets[0].Address(), spice.Melange{}, []byte{byte(k), byte(round)})
+					v, _ := accountant.NewVertex(t, a.Hash, b.Hash, wt+1, sealer)
+					n.ab.AddLeaf(context.Background(), &v)
+				}
+				tips := len(n.ab.VerifSnapshot().Leaves)
+				r := withDeadline(5*time.Second, func() {
+					for k := 0; k < 3; k++ {
+						for range n.ab.StreamDAG(context.Background()) {
+						}
+					}
+				})
+				c.Rep.Evals++
+				c.Distinct(fmt.Sprintf("stream-several-tips/%d", tips))
+				if r != "ok" {
+					c.Violate("C08", "stream-of-several-tips-hangs", fmt.Sprintf("StreamDAG of a DAG with %d tips: %s", tips, r), info)
+					w.Close()
+					break
+				}
+				time.Sleep(2 * time.Millisecond)
+				ok := w.probe(n, "stream-several-tips", info)
+				w.Close()
+				if !ok {
+					break
+				}
+			}
+		}
+
 		// truncate trigger on a short DAG (inflated weight offered by gossip), then > 50 proposals
 		{
 			w, n := buildChain(c, 3, spice.Melange{Currency: 100})
